@@ -1,11 +1,11 @@
-\* Batcher q5: retry budget per batch: s1 = send,send; f1 = blocking flush (timeout 0); up to 12 failing attempts; Cap 2, MaxRetry 10 (hard-coded by bounded()), <= 12 processor faults, AnyRemainder FALSE, receiver kill FALSE; idle spinning cut at 3 ms. Exhaustive.
+\* Batcher q5: retry budget per batch: s1 = send,send; up to 13 failing attempts; Cap 2, MaxRetry 10 (hard-coded by bounded()), <= 13 processor faults, AnyRemainder FALSE, receiver kill FALSE; idle spinning cut at 3 ms. Exhaustive.
 SPECIFICATION Spec
 CONSTANTS
     SenderOps <- R2_SenderOps
     FlusherOps <- R2_FlusherOps
     Cap = 2
     MaxRetry = 10
-    MaxFail = 12
+    MaxFail = 13
     AnyRemainder = FALSE
     AllowKill = FALSE
     MaxIdleDelay = 3
